@@ -15,6 +15,7 @@ class Result:
 
   MAX_SAMPLES = 6
   MAX_VIOLATIONS = 200
+  MAX_DISTINCT = 3000000   # distinct-key bookkeeping is exact up to here; beyond it only counted (memory bound)
 
   def __init__(self):
     self.evals = 0            # executions of real gin code that were compared with the oracle
@@ -30,11 +31,15 @@ class Result:
     self.samples = []
     self.extra = {}
     self.capped = False
+    self.nontrivial_beyond = 0  # non-trivial evaluations not entered into the distinct set (set was full)
 
   def case(self, key, nontrivial=True):
     self.evals += 1
     if nontrivial:
-      self.nontrivial.add(h64(key))
+      if len(self.nontrivial) < self.MAX_DISTINCT:
+        self.nontrivial.add(h64(key))
+      else:
+        self.nontrivial_beyond += 1
 
   def state(self, key):
     self.stateset.add(h64(key))
@@ -60,7 +65,16 @@ class Result:
     self.states += other.states
     self.transitions += other.transitions
     self.traces += other.traces
-    self.nontrivial |= other.nontrivial
+    self.nontrivial_beyond += other.nontrivial_beyond
+    if len(self.nontrivial) + len(other.nontrivial) <= self.MAX_DISTINCT:
+      self.nontrivial |= other.nontrivial
+    else:
+      room = max(0, self.MAX_DISTINCT - len(self.nontrivial))
+      new = other.nontrivial - self.nontrivial if room else other.nontrivial
+      for i, h in enumerate(new):
+        if i < room:
+          self.nontrivial.add(h)
+      self.nontrivial_beyond += max(0, len(new) - room)
     self.stateset |= other.stateset
     self.outcomes |= other.outcomes
     self.witness.update(other.witness)
